@@ -455,6 +455,22 @@ theorem htab_connection_close_closes :
     (served false (exTabClose.map strictW)).length = 1 := by
   decide +kernel
 
+/-- `GET /a`, `Host: h`, `Connection: Close` (another letter case); then `GET /b` -/
+def exCloseCase : List OReq :=
+  [{ method := [71, 69, 84], target := [47, 97],
+     fields := [⟨[72, 111, 115, 116], [32, 104], []⟩, ⟨[67, 111, 110, 110, 101, 99, 116, 105, 111, 110], [32, 67, 108, 111, 115, 101], []⟩],
+     body := .none },
+   { method := [71, 69, 84], target := [47, 98], fields := [], body := .none }]
+
+/-- regression (`/repo` 9dcdbe5): the connection option `close` is case-insensitive (RFC 7230 §6.1): after a request with
+`Connection: Close` the server closes; only that request is handed to a handler and its response announces the close.
+Before the repair the bytes were compared exactly: the connection stayed open and `GET /b` was served behind it. -/
+theorem connection_close_any_case_closes :
+    (handled (serve {} .eof (encAllO exCloseCase))).map (fun s => s.head.uri) = [[47, 97]] ∧
+    (serve {} .eof (encAllO exCloseCase)).getLast? = some (.resp 200 true) ∧
+    (served false (exCloseCase.map strictW)).length = 1 := by
+  decide +kernel
+
 /-- `POST /a HTTP/1.1`, `Content-Length:⇥3`, body `abc`: handled with body `abc`, as the strict decoder says. -/
 theorem htab_content_length_accepted :
     (handled (serve {} .eof
